@@ -67,3 +67,12 @@ package price
 //@   ensures @just: forall n *commodity.Commodity :: {key(result, n)} (n in result) && n != t ==>
 //@        (exists m *commodity.Commodity :: (m in result) && has(ps, m, n) && result[n] == mult(ps[m][n], result[m]))
 //@   ensures @direct: forall n *commodity.Commodity :: {key(rawval(ps, t), n)} has(ps, t, n) && n != t ==> (n in result) && result[n] == mult(ps[t][n], 1.0)
+//
+// Theory of decimal multiplication as far as the proofs need it (trusted; validated by the stand-in
+// 'decimal' against shopspring/decimal): multiplication is odd in its first argument and x*1 = x.
+//@ axiom dmul_neg: forall x real, y real :: {dmul(0.0 - x, y)} dmul(0.0 - x, y) == 0.0 - dmul(x, y)
+//@ axiom dmul_one: forall x real :: {dmul(x, 1.0)} dmul(x, 1.0) == x
+//@ axiom dmul_zero: forall y real :: {dmul(0.0, y)} dmul(0.0, y) == 0.0
+//
+// Valuation is odd in the quantity: the two halves of a posting pair stay exact negatives (C01).
+//@ lemma val_odd: forall q real, pr real :: mult(0.0 - q, pr) == 0.0 - mult(q, pr)
